@@ -120,6 +120,9 @@ func lbKVs(k *kvs, lb *cmttypes.LightBlock) {
 	}
 	k.set("lb.enc", hx(enc))
 	k.set("lb.lch", hx(lb.LastCommitHash))
+	pb := lb.LastBlockID.ToProto()
+	lbid, _ := pb.Marshal()
+	k.set("lb.lbid", hx(lbid))
 }
 
 // blockKVs computes the semantic view of a block response with the decoders the implementation uses.
@@ -188,6 +191,10 @@ func blockVerdict(err error) string {
 		return "type"
 	case strings.HasPrefix(e, "mismatched block state root hash"):
 		return "roothash"
+	case strings.HasPrefix(e, "mismatched block meta last commit height"):
+		return "commit-height"
+	case strings.HasPrefix(e, "mismatched block meta last commit block identifier"):
+		return "commit-blockid"
 	case strings.HasPrefix(e, "malformed block meta last commit"):
 		return "commit-malformed"
 	case strings.HasPrefix(e, "mismatched block meta last commit"):
